@@ -49,4 +49,9 @@ package rtpklv
 //@   ensures[C08] err != nil || len(ret) > 0
 //@   ensures[C08] err != nil ==> ret == nil
 //@   ensures[C08] err == nil ==> d.buffer == nil
+// C07: the packet that follows the previous one in sequence - modulo 2^16, so also 65535 -> 0 - is
+// never taken for a loss: if it closes (marker) the unit being assembled, with the unit's timestamp,
+// the unit is returned. A packet out of sequence is refused and leaves nothing half-assembled.
+//@   ensures[C07] old(d.firstPacketReceived) && old(d.assembling) && pkt.SequenceNumber == old(d.lastSeqNum) + 1 && pkt.Timestamp == old(d.currentTimestamp) && pkt.Marker ==> err == nil
+//@   ensures[C07] old(d.firstPacketReceived) && pkt.SequenceNumber != old(d.lastSeqNum) + 1 ==> err != nil && !d.assembling
 //@   modifies fields(d), elems(d.buffer), fresh
